@@ -533,21 +533,48 @@ def rule_direct_solver(rep: Report, repo: Repo):
     # grouped_greens_functions: kernel args routed, conj under flag, energy = group representative
     gg = [d for d in nested_defs(outer) if d.name == "grouped_greens_functions"]
     if len(gg) == 1:
-        c = [n for n in ast.walk(gg[0]) if isinstance(n, ast.Call) and call_name(n) == "direct_greens_function"]
-        ok = len(c) == 1
-        if ok:
-            a = [norm(x) for x in c[0].args]
-            kw = {k.arg: norm(k.value) for k in c[0].keywords if k.arg}
-            ok = a[:2] == ["operator", "subspace_eigenvalues[group[0]]"] and kw.get("kernel_vectors") == "kernel_vectors" \
-                and kw.get("left_kernel_vectors") == "left_kernel_vectors"
-        rep.check(ok, R, f"{MOD}::solve_sylvester_direct::grouped_greens_functions builds G(E_group) with the group's kernel vectors", "", loc(gg[0]))
-        conj = [s for s in ast.walk(gg[0]) if isinstance(s, ast.If) and norm(s.test) == "conjugate_kernel"]
-        ok = len(conj) == 1 and {norm(x) for x in conj[0].body} == {"kernel_vectors = kernel_vectors.conj()", "left_kernel_vectors = left_kernel_vectors.conj()"}
-        rep.check(ok, R, f"{MOD}::solve_sylvester_direct::grouped_greens_functions conjugates both kernels iff conjugate_kernel", "", loc(gg[0]))
-        sel = {norm(s.targets[0]): norm(s.value) for s in ast.walk(gg[0]) if isinstance(s, ast.Assign) and isinstance(s.targets[0], ast.Name)}
-        ok = sel.get("kernel_vectors") is not None and "right_kernel_subspace[:, group]" in [norm(s.value) for s in ast.walk(gg[0]) if isinstance(s, ast.Assign) and norm(s.targets[0]) == "kernel_vectors"] \
-            and "left_kernel_subspace[:, group]" in [norm(s.value) for s in ast.walk(gg[0]) if isinstance(s, ast.Assign) and norm(s.targets[0]) == "left_kernel_vectors"]
-        rep.check(ok, R, f"{MOD}::solve_sylvester_direct::grouped_greens_functions selects the degenerate group's columns", "", loc(gg[0]))
+        from .paths import enum_paths
+        from .resolve import rtext, run_block
+        # innermost loop over degenerate groups
+        loops = [n for n in ast.walk(gg[0]) if isinstance(n, ast.For) and "_group_close_energies" in norm(n.iter)]
+        if len(loops) != 1:
+            raise AnalysisError(R, "grouped_greens_functions: loop over energy groups not found")
+        gl = loops[0]
+        ok_iter = norm(gl.iter) == "_group_close_energies(subspace_eigenvalues, eigenvalue_atol)" and norm(gl.target) == "group"
+        rep.check(ok_iter, R, f"{MOD}::solve_sylvester_direct::grouped_greens_functions groups the block's energies with eigenvalue_atol", norm(gl.iter), loc(gl))
+        for flag in (True, False):
+            def atom(n, flag=flag):
+                t = norm(n)
+                if t == "conjugate_kernel":
+                    return flag
+                if t == "not conjugate_kernel":
+                    return not flag
+                return None
+            paths = [p for p in enum_paths(gl.body, atom) if p.end == "fallthrough"]
+            for p in paths:
+                stmts = [e for e in p.events if isinstance(e, ast.stmt)]
+                env = run_block(stmts)
+                calls = [c for st in stmts for c in ast.walk(st) if isinstance(c, ast.Call) and call_name(c) == "direct_greens_function"]
+                if len(calls) != 1:
+                    raise AnalysisError(R, "grouped_greens_functions: expected one direct_greens_function call per path")
+                c = calls[0]
+                args = [rtext(a, env) for a in c.args]
+                kw = {k.arg: rtext(k.value, env) for k in c.keywords if k.arg}
+                cj = ".conj()" if flag else ""
+                want_k = f"right_kernel_subspace[:, group]{cj}"
+                want_l = f"left_kernel_subspace[:, group]{cj}"
+                tag = "transposed problem (conjugated kernels)" if flag else "direct problem"
+                ok = args[:2] == ["operator", "subspace_eigenvalues[group[0]]"]
+                inst = f"{MOD}::solve_sylvester_direct::grouped_greens_functions [{tag}] Green's function of `operator` at the group's own energy"
+                if ok:
+                    rep.ok(R, inst, f"energy argument resolves to {args[1]}", loc(c))
+                else:
+                    rep.fail(R, f"{MOD}::solve_sylvester_direct::grouped_greens_functions [{tag}] calls direct_greens_function({', '.join(args[:2])}, ...)",
+                             "the transposed problem (E - H_0^T) x^T = y^T has conjugated kernel vectors but the SAME energy E "
+                             "(transpose, not adjoint); required arguments: operator, subspace_eigenvalues[group[0]]", loc(c))
+                okk = kw.get("kernel_vectors") == want_k and kw.get("left_kernel_vectors") == want_l
+                rep.check(okk, R, f"{MOD}::solve_sylvester_direct::grouped_greens_functions [{tag}] kernel vectors are the group's columns"
+                          + (", conjugated" if flag else ""), f"kernel={kw.get('kernel_vectors')}, left={kw.get('left_kernel_vectors')}", loc(c))
     else:
         raise AnalysisError(R, "grouped_greens_functions not found")
     # nested solver branches
